@@ -155,8 +155,10 @@ class Ctx:
               "violations": len(self.violations),
               "known_findings_hit": self.known}
         if self.only_key is None:
-            os.makedirs(os.path.join(VERIF, "evidence"), exist_ok=True)
-            with open(os.path.join(VERIF, "evidence", f"{self.pid}.json"), "w") as fh:
+            # VERIF_EVIDENCE_DIR: tooling only (mutant runs against a scratch worktree must not overwrite the real evidence)
+            evdir = os.environ.get("VERIF_EVIDENCE_DIR") or os.path.join(VERIF, "evidence")
+            os.makedirs(evdir, exist_ok=True)
+            with open(os.path.join(evdir, f"{self.pid}.json"), "w") as fh:
                 json.dump(ev, fh, indent=1, default=str)
         for k in self.known:
             print(f"KNOWN-FINDING: property={self.pid} {k['key']} :: {k['what']}")
